@@ -147,7 +147,7 @@ class FsModel:
         self.dur_names = {n: n for n in files}  # durable directory: name -> which durable content key
 
 
-def crash_states(old_files, final_files, ops, byte_step):
+def crash_states(old_files, final_files, ops, byte_step, links=()):
     """Enumerates crash states. Returns list of (label, {name: bytes}, model) where model in {'kill','power'}.
     File contents of writes are taken from the final files (writes are sequential)."""
     states = []
@@ -162,6 +162,23 @@ def crash_states(old_files, final_files, ops, byte_step):
         states.append((label, dict(files), model))
 
     vis = dict(old_files)
+    # names that are hard links to one file share its content: gid[name] identifies the file
+    gid = {}
+    for k_, grp in enumerate(links):
+        for n_ in grp:
+            gid[n_] = "L%d" % k_
+    for n_ in vis:
+        gid.setdefault(n_, "F" + n_)
+    fresh = [0]
+
+    def members(n):
+        g = gid.get(n)
+        return [m for m in vis if gid.get(m) == g] if g is not None else [n]
+
+    def setc(files, n, content):
+        for m in (members(n) or [n]):
+            files[m] = content
+        files[n] = content
     pos = {}
     synced = dict(old_files)          # last content known durable per name
     content_src = {}                  # name -> final content the writes produce (resolved through renames)
@@ -187,10 +204,10 @@ def crash_states(old_files, final_files, ops, byte_step):
         if o["op"] == "open":
             n = o["name"]
             if o["trunc"] or n not in vis:
-                if o["trunc"] and n in vis and synced.get(n) is not None:
-                    # power loss: the truncation itself may not be durable yet -> old content survives
-                    pass
-                vis[n] = b""
+                if n not in vis:
+                    fresh[0] += 1
+                    gid[n] = "N%d" % fresh[0]
+                setc(vis, n, b"")
             pos[n] = len(vis[n]) if o["append"] else 0
             add("after open(%s)%s" % (n, " O_TRUNC" if o["trunc"] else ""), vis, "kill")
         elif o["op"] == "write":
@@ -204,19 +221,21 @@ def crash_states(old_files, final_files, ops, byte_step):
             for c in cuts:
                 newc = base[:start] + data[:c] + base[start + c:]
                 tmp = dict(vis)
-                tmp[n] = newc
+                setc(tmp, n, newc)
                 add("write #%d to %s cut at byte %d" % (i, n, start + c), tmp, "kill")
-            vis[n] = base[:start] + data + base[start + len(data):]
+            setc(vis, n, base[:start] + data + base[start + len(data):])
             pos[n] = start + len(data)
         elif o["op"] == "truncate":
             n = o["name"]
-            vis[n] = vis.get(n, b"")[:o["len"]]
+            setc(vis, n, vis.get(n, b"")[:o["len"]])
             add("after truncate(%s,%d)" % (n, o["len"]), vis, "kill")
         elif o["op"] == "fsync":
             synced[o["name"]] = vis.get(o["name"], b"")
         elif o["op"] == "rename":
             s, d = o["src"], o["dst"]
-            if s in vis:
+            if s in vis and d in vis and gid.get(s) == gid.get(d):
+                pass          # both names are links to the same file: rename() does nothing and both names stay
+            elif s in vis:
                 # power loss: the rename can reach the disk before the source's data does
                 if synced.get(s) != vis[s]:
                     src = vis[s]
@@ -227,15 +246,18 @@ def crash_states(old_files, final_files, ops, byte_step):
                         tmp[d] = src[:c]
                         add("power loss: rename %s->%s durable, data only up to byte %d (no fsync before rename)" % (s, d, c), tmp, "power")
                 vis[d] = vis.pop(s)
+                gid[d] = gid.pop(s, "F" + d)
                 synced[d] = synced.pop(s, None)
             add("after rename(%s,%s)" % (s, d), vis, "kill")
         elif o["op"] == "unlink":
             vis.pop(o["name"], None)
+            gid.pop(o["name"], None)
             add("after unlink(%s)" % o["name"], vis, "kill")
         elif o["op"] == "link":
             if o["src"] in vis:
                 vis[o["dst"]] = vis[o["src"]]
-            add("after link", vis, "kill")
+                gid[o["dst"]] = gid[o["src"]]
+            add("after link(%s,%s)" % (o["src"], o["dst"]), vis, "kill")
         # power loss at this point: every file with un-fsynced data may hold any prefix of what was written since
         for n, c in list(vis.items()):
             if synced.get(n) != c:
@@ -366,6 +388,7 @@ def run_scenario(V, sc, idx, wd, tier, rng):
             # strace -y reports descriptors by their resolved path: read writes through the link as writes to the link
             ALIASES[os.path.realpath(os.path.join(sdir, "elsewhere", "rates-%d.csv" % year))] = os.path.join(os.path.realpath(cache), "rates-%d.csv" % year)
     old_files = {n: open(os.path.join(cache, n), "rb").read() for n in os.listdir(cache)}
+    old_inodes = {n: os.stat(os.path.join(cache, n)).st_ino for n in old_files}       # before the traced run changes anything
     # run B under strace: a look-up newer than the cache forces a download and a rewrite
     target = sc["t2"] - datetime.timedelta(days=1)
     caseB = {"id": "B", "cache": "csv", "dir": cache, "runs": [{"today": sc["t2"].isoformat(), "remote": remote_spec(vis2), "lookups": [target.isoformat()]}]}
@@ -390,7 +413,13 @@ def run_scenario(V, sc, idx, wd, tier, rng):
     size = len(final_files.get(live, b""))
     full = tier == "thorough"
     byte_step = (lambda n: 1) if full else (lambda n: max(1, n // 300))
-    states = crash_states(old_files, final_files, ops, byte_step)
+    by_ino = {}
+    for n_, ino_ in old_inodes.items():
+        by_ino.setdefault(ino_, set()).add(n_)
+    links = [g for g in by_ino.values() if len(g) > 1]
+    if links:
+        V.bump("start_states_with_hard_links")
+    states = crash_states(old_files, final_files, ops, byte_step, links)
     new_rows = rates_from_bytes(final_files.get(live, b""))
     # materialise and query
     cases = []
@@ -538,10 +567,17 @@ def run(tier):
     n = {"quick": 4, "thorough": 12}[tier]
     wd = common.workdir("c14")
     try:
+        inconclusive = []
         for i in range(n):
             rng = common.rng_for(seed, PROP, i)
             sc = scenario(rng, i)
-            run_scenario(V, sc, i, wd, tier, rng)
+            try:
+                run_scenario(V, sc, i, wd, tier, rng)
+            except common.Inconclusive as e:
+                inconclusive.append("scenario %d: %s" % (i, e))      # the other scenarios still count; a violation found elsewhere stands
+        V.extra["inconclusive_scenarios"] = inconclusive
+        if inconclusive and not V.violations:
+            raise common.Inconclusive("; ".join(inconclusive))
         V.exhaustive = (tier == "thorough")
     finally:
         common.cleanup(wd)
